@@ -435,6 +435,27 @@ fn ephemeral_option_combinations(rep: &Report) {
         }
     });
     rep.extra("ephemeral_option_combinations", json!(jobs.len()));
+    // "every ephemeral randomness": 2048 different supplied ephemeral keys x 2 key pairs, a 5-byte plaintext (a refusal that
+    // depends on the VALUE of a shared secret -- one in 256 -- shows here)
+    let fails = std::sync::atomic::AtomicU64::new(0);
+    (0..2048u32).into_par_iter().for_each(|i| {
+        for (si, ri) in [(0usize, 1usize), (2, 3)] {
+            rep.eval(1);
+            let e = derive32(seed, &format!("c01-many-e-{}", i));
+            let ek = kestrel_crypto::PrivateKey::try_from(&e[..]).unwrap();
+            let epk = kestrel_crypto::PublicKey::try_from(&r::x25519_base(&e)[..]).unwrap();
+            let mut out = Vec::new();
+            let mut src: &[u8] = b"hello";
+            let ok = guarded(|| kestrel_crypto::encrypt::key_encrypt(&mut src, &mut out, &ids[si].private(), &ids[si].public(), &ids[ri].public(), Some(&ek), Some(&epk), Some(&kestrel_crypto::PayloadKey::new(&pay)), kestrel_crypto::AsymFileFormat::V1).is_ok()) == Ok(true);
+            let back = if ok { run_plain(&Subject::KeyDec { r: hx(&ids[ri].sk), r_pub: hx(&ids[ri].pk) }, &out) } else { (Res::Err(crate::streams::ErrKind::Other, "encrypt failed".into()), vec![]) };
+            if !ok || !back.0.is_ok() || back.1 != b"hello" {
+                if fails.fetch_add(1, std::sync::atomic::Ordering::Relaxed) < 3 {
+                    rep.violation("lib/ephemeral-options", json!({"kind":"ephemeral-options","many":i,"s":si,"r":ri}), format!("with the ephemeral key {} (number {} of 2048) the round trip {} -> {} fails: encrypt ok = {}, decrypt {}", hx(&e), i, ids[si].name, ids[ri].name, ok, back.0.brief()));
+                }
+            }
+        }
+    });
+    rep.nontrivial(b"many-ephemeral-keys");
 }
 
 pub fn run(rep: &Report) {
